@@ -658,6 +658,13 @@ func genReason(t *rapid.T, label, who string) string {
 	return rapid.SampledFrom([]string{who + " says no", "denied by " + who, "", who + ": a rather long explanation of why this request was not acceptable to the application layer"}).Draw(t, label)
 }
 
+func genErrKind(t *rapid.T, label string) ErrValueKind {
+	if rapid.Bool().Draw(t, label+".plainnew") {
+		return ErrNew
+	}
+	return ErrValueKind(rapid.IntRange(0, int(NumErrValueKinds)-1).Draw(t, label))
+}
+
 func genOutcome(t *rapid.T, label, who string, bad bool, acceptHdr bool) Outcome {
 	if !bad {
 		if rapid.Bool().Draw(t, label+".set") {
@@ -671,7 +678,7 @@ func genOutcome(t *rapid.T, label, who string, bad bool, acceptHdr bool) Outcome
 	}
 	reason := genReason(t, label+".reason", who)
 	if rapid.Bool().Draw(t, label+".plain") {
-		return Outcome{Kind: CbError, Reason: reason}
+		return Outcome{Kind: CbError, Reason: reason, ErrKind: genErrKind(t, label+".errkind")}
 	}
 	return Outcome{Kind: CbReject, Status: rapid.SampledFrom(rejectStatusesOr0).Draw(t, label+".status"), Reason: reason,
 		Headers: genHeaders(t, label+".hdr", []string{"X-Reject-Why", "WWW-Authenticate", "Retry-After", "X-Rej-B", "Location"}, 2)}
@@ -746,7 +753,7 @@ func GenConfig(t *rapid.T, label string, kind Kind, plan Plan) *Config {
 		switch {
 		case plan.ExtFail[i]:
 			if rapid.Bool().Draw(t, label+".ext.plain."+n) {
-				p = ExtPolicy{Act: ExtPlainError, Reason: genReason(t, label+".ext.reason."+n, "Negotiate("+n+")")}
+				p = ExtPolicy{Act: ExtPlainError, ErrKind: genErrKind(t, label+".ext.errkind."+n), Reason: genReason(t, label+".ext.reason."+n, "Negotiate("+n+")")}
 			} else {
 				p = ExtPolicy{Act: ExtReject, Status: rapid.SampledFrom(rejectStatusesOr0).Draw(t, label+".ext.status."+n), Reason: genReason(t, label+".ext.reason."+n, "Negotiate("+n+")"),
 					Headers: genHeaders(t, label+".ext.hdr."+n, []string{"X-Reject-Why", "X-Rej-B", "Location"}, 2)}
